@@ -668,6 +668,7 @@ REF = {'Cudd_Ref', 'cuddRef', 'sylvan_ref', 'bdd_addref'}
 DEREF = {'Cudd_RecursiveDeref', 'Cudd_RecursiveDerefZdd', 'Cudd_Deref', 'cuddDeref',
          'sylvan_deref', 'bdd_delref', 'Cudd_IterDerefBdd'}
 OWNED = {'Dddmp_cuddBddLoad'}      # return a node that already carries a reference
+METHOD_REF = {'_incref': +1, '_decref': -1}    # self._incref(x) / self._decref(x, ...)
 
 
 def _fname(call):
@@ -762,13 +763,36 @@ class RefPaths:
         self._prepass(body)
         falls = self._paths([body], 0, {}, {})
         for led, conds in falls:
-            self.exits.append(('fall', None, led, None))
+            self.exits.append(('fall', None, led, None, dict(conds)))
         return self.exits
 
     def _apply_calls(self, st, led):
         led = dict(led)
+        # the wrappers' own lower bound on the reference count:  X._ref += 1 / -= 1 / = 1
+        tname = type(st).__name__
+        if tname == 'InPlaceAssignmentNode' and isinstance(st.lhs, ExprNodes.AttributeNode) \
+                and st.lhs.attribute == '_ref' and isinstance(st.rhs, ExprNodes.IntNode):
+            k = _etext(st.lhs)
+            d = int(st.rhs.value) * (1 if st.operator == '+' else -1 if st.operator == '-' else 0)
+            led[k] = led.get(k, 0) + d
+        if tname == 'SingleAssignmentNode' and isinstance(st.lhs, ExprNodes.AttributeNode) \
+                and st.lhs.attribute == '_ref' and isinstance(st.rhs, ExprNodes.IntNode):
+            led[_etext(st.lhs)] = int(st.rhs.value)
         for c in _calls_in(st):
             f = _fname(c)
+            if self.REF is REF and c.args and (
+                    f in REF or f in DEREF or (f in METHOD_REF and isinstance(
+                        c.function, ExprNodes.AttributeNode))):
+                a0 = _etext(c.args[0] if (f in REF or f in METHOD_REF) else c.args[-1])
+                if led.get('<null>' + a0):
+                    # a reference primitive applied to a pointer this path has set to NULL
+                    led['<nullderef>'] = led.get('<nullderef>', 0) + 1
+                    continue
+            if self.REF is REF and f in METHOD_REF and c.args and isinstance(
+                    c.function, ExprNodes.AttributeNode):
+                a = _etext(c.args[0])
+                led[a] = led.get(a, 0) + METHOD_REF[f]
+                continue
             if f in self.REF and c.args:
                 a = _etext(c.args[0]) if self.REF is REF else '<calls>'
                 led[a] = led.get(a, 0) + 1
@@ -780,6 +804,14 @@ class RefPaths:
                 st.rhs, ExprNodes.SimpleCallNode) and _fname(st.rhs) in OWNED:
             a = _etext(st.lhs)
             led[a] = led.get(a, 0) + 1
+        # X = NULL marks X as a null pointer on this path; any other assignment clears the mark
+        if isinstance(st, Nodes.SingleAssignmentNode) and isinstance(
+                st.lhs, (ExprNodes.NameNode, ExprNodes.AttributeNode)):
+            k = '<null>' + _etext(st.lhs)
+            if isinstance(st.rhs, ExprNodes.NullNode):
+                led[k] = 1
+            elif k in led:
+                del led[k]
         # parking a node in a container hands one reference over:  c[i] = x
         if isinstance(st, Nodes.SingleAssignmentNode) and isinstance(
                 st.lhs, ExprNodes.IndexNode):
@@ -826,7 +858,7 @@ class RefPaths:
                     detail = _fname(x)
                 elif isinstance(x, ExprNodes.NameNode):
                     detail = x.name
-            self.exits.append((t, st.pos[1], l, detail))
+            self.exits.append((t, st.pos[1], l, detail, dict(conds)))
             return []
         if t == 'IfStatNode':
             branches = [(self._cond_key(cl.condition), cl.body) for cl in st.if_clauses]
@@ -909,15 +941,23 @@ def ref_functions(path):
     tree, text = cy_parse(path)
     src = text.split('\n')
     out = []
+    has_field = bool(re.search(r'cdef\s+public\s+int\s+_ref\b', text))
     for cls, name, node in cy_functions(tree):
         cs = {_fname(c) for c in _calls_in(node.body)}
-        if not (cs & (REF | DEREF | OWNED)):
+        touches_ref_field = bool(re.search(r"\._ref\s*(\+=|-=|=)[^=]", "\n".join(
+            src[node.pos[1] - 1:_last_line(node)])))
+        if has_field and ((cls == 'Function' and name in ('init', '__cinit__', '__dealloc__'))
+                          or (cls in ('BDD', 'ZDD') and name in ('incref', 'decref'))):
+            # life-cycle methods of a wrapper whose Function keeps its own lower bound
+            touches_ref_field = True
+        if not (cs & (REF | DEREF | OWNED | set(METHOD_REF))) and not touches_ref_field:
             continue
         rp = RefPaths(src)
         try:
             exits = rp.run(node.body)
             out.append(dict(cls=cls, name=name, exits=exits, explosion=False, steps=rp.steps,
-                            line=node.pos[1], container_vars=sorted(rp.container_vars)))
+                            line=node.pos[1], container_vars=sorted(rp.container_vars),
+                            touches_ref_field=touches_ref_field))
         except PathExplosion:
             out.append(dict(cls=cls, name=name, exits=[], explosion=True, steps=rp.steps,
                             line=node.pos[1], container_vars=[]))
@@ -934,7 +974,7 @@ def wrap_discipline(path):
             rp = RefPaths(src, ref={'init'}, deref=set())
             exits = rp.run(node.body)
             bad = []
-            for kind, line, led, detail in exits:
+            for kind, line, led, detail, _conds in exits:
                 if kind == 'RaiseStatNode':
                     continue
                 n = led.get('<calls>', 0)
